@@ -170,9 +170,21 @@ def run(tier):
     rep.check("!!" in consts and "tag:yaml.org,2002:" in consts, "default-secondary-handle", "resolve_tag",
               "resolve_tag no longer maps `!!` to the constant tag:yaml.org,2002: by default", site=rt.span, detail=sorted(consts))
     gets = [(bb, t) for bb, t, ck, fr in rt.calls() if ck and ck.endswith("HashMap::get")]
-    rep.check(len(gets) >= 3 and all(cfg.expr_fields(_strip_ref(cfg.expr_operand(rt, t["args"][0]))) == ["tags"] for _, t in gets),
+    rep.check(len(gets) >= 2 and all(cfg.expr_fields(_strip_ref(cfg.expr_operand(rt, t["args"][0]))) == ["tags"] for _, t in gets),
               "lookup-in-directives", "resolve_tag", "resolve_tag does not look handles up in Parser.tags", site=rt.span,
               detail=[cfg.expr_str(cfg.expr_operand(rt, t["args"][0])) for _, t in gets])
+    # constant keys: only the secondary handle "!!" may be looked up by name; a lone `!` (empty handle) is the non-specific tag and
+    # `!name` a local tag, neither may be resolved through the primary handle "!" (or any other declarable handle) of a %TAG directive
+    for bb, t in gets:
+        e = cfg.strip_reborrow(cfg.expr_operand(rt, t["args"][1], 6))
+        while e[0] in ("ref",):
+            e = e[1]
+        while e[0] == "place" and e[2] == ["deref"]:
+            e = e[1]
+        if e[0] == "const" and isinstance(e[1], str):
+            rep.check(e[1] == "!!" or not e[1].startswith("!"), "constant-handle-lookup", "resolve_tag:get(%r)" % e[1],
+                      "resolve_tag looks up the constant handle %r in the directives: a lone `!` / local tag would take the prefix a %%TAG directive gave to that handle "
+                      "instead of staying non-specific / local" % e[1], site=rt.span)
     # named handle absent => Err: an Err sink dominated by the None edge of a get(handle-param)
     errs = cfg.err_sink_blocks(rt)
     ok = False
